@@ -8,13 +8,15 @@ CFG = dict(
           "whose terminal error is the Canceled / DeadlineExceeded status and that received no trailer has exactly one reset on the wire unless "
           "writes fail); and of the server model Model/Server.v: C07_reset_cancels (after the read loop has read a reset for a registered "
           "stream its handler context is done in every later state), C07_handler_unblocks (Q: a handler whose context is done is parked in no "
-          "operation), C07_no_orphan_partial (Q: with the read loop at its Read everything delivered has been read). C07_recv_refuted: the "
-          "strict 'every receive after the cancellation returns the context status' is false of the model (respChan closed race). Findings: "
+          "operation), C07_no_orphan_partial (Q: with the read loop at its Read everything delivered has been read). C07_recv_strict: a "
+          "stream whose loop was still running when its context ended ends, in every quiescent state of every continuation, with the Canceled / "
+          "DeadlineExceeded status (or the outcome of a terminal envelope taken in the race, or the metadata abort) and never with 'respChan "
+          "closed' / the connection error (true since fix 72f38d7 of D-07s). Findings: "
           "reset-behind-backpressure (no_orphan fails while a non-reading handler's full queue holds the read loop). Both models are tied "
           "lock-step to the real code (client: every run of this check, all orders of internal rules; server: ./check SV).",
     props="Props/C07.v",
     theorems=["C07_caller_unblocked", "C07_after_done", "C07_reset_once", "C07_reset_owner", "C07_status_reset", "C07_reset_cancels",
-              "C07_handler_unblocks", "C07_no_orphan_partial", "C07_recv_refuted"],
+              "C07_handler_unblocks", "C07_no_orphan_partial", "C07_recv_strict"],
     imports=["Model.Client", "Check.ClientC", "Model.Protocol", "Check.CwC", "Check.C07c"],
     case_type="cwcase", find_bad_from="find_bad_from", go_tags="cw",
     rigs=[dict(test="TestC07", timeout_quick=600, timeout_thorough=2400)],
@@ -32,7 +34,8 @@ CFG = dict(
          "after the cancellation: wires drained, RecvMsg, SendMsg, RecvMsg, CloseSend by the caller, the handler awaits its context, sends, "
          "returns; the other call is then completed. Judged: client half against Model/Client.v (all orders), status codes of RecvMsg/SendMsg "
          "(Canceled vs DeadlineExceeded exactly), pending operations, reset envelopes on the tap (count, id, owner), handler context at every "
-         "quiescent point after the reset reached the server, orphans at the end; plus 40 free-running attempts at the cancel-then-send race",
+         "quiescent point after the reset reached the server, orphans at the end; plus 40 repetitions of the FORCED cancel-then-send schedule "
+         "(stream loop held at the yield point cs.loop.read while a SendMsg tears the registration down: regression of D-07s)",
     assumptions=["payloads, metadata, methods and names are opaque tokens for client and server",
                  "the transport checks the context of a Write (Endpoint.CheckCtx); wires are FIFO and lossless (C19 for the shipped transports)",
                  "'becomes done' is observed at quiescence (testing/synctest durable blocking); latency is not a property of the model"])
